@@ -18,6 +18,90 @@ OPEN_OWNER_FUNCS = {"reader.TdmsReader.__init__": "reader.TdmsReader",
 CLOSE_METHODS = ("reader.TdmsReader.close", "tdms.TdmsFile.close", "writer.TdmsWriter.close")
 
 
+def model_unfit(prog, cq):
+    """The ownership rules model a handle-owning class as: handle fields and owner (path) fields of the class itself, assigned in its
+    own methods from None, open(...), a parameter, another handle field or a local that carries one of those.  -> None when the class
+    has that shape, else the reason (then the rules say `not recognised` instead of guessing)."""
+    cls = prog.cls(cq)
+    fields = set(OWNERS[cq]) | set(OWNERS[cq].values())
+    seen = set()
+    for m in cls.methods.values():
+        params = set(m.params)
+        local_ok = set(params)
+
+        def ok_value(v, depth=0):
+            if isinstance(v, ast.Constant):
+                return True
+            if isinstance(v, ast.IfExp):
+                return ok_value(v.body) and ok_value(v.orelse)
+            if isinstance(v, ast.Call):
+                return True          # open(...), an opener helper, os.path...: classified by the interpreter
+            d = dotted(v)
+            if d is None:
+                return isinstance(v, (ast.BinOp, ast.JoinedStr, ast.Compare, ast.BoolOp))
+            root = d.split(".")[0]
+            if root == "self":
+                return d.count(".") == 1
+            return d.count(".") == 0          # a plain local or parameter; `helper.attr` is an object the model does not follow
+        for n in walk_body(m.node):
+            if isinstance(n, ast.Assign):
+                for t in n.targets:
+                    for tt in (t.elts if isinstance(t, (ast.Tuple, ast.List)) else [t]):
+                        a = _self_attr(tt)
+                        if a in fields:
+                            seen.add(a)
+                            if not ok_value(n.value):
+                                return "%s assigns self.%s from `%s`, an attribute of another object" % (m.qual, a, unparse(n.value)[:50])
+    missing = sorted(f for f in OWNERS[cq] if f not in seen)
+    if missing:
+        return "%s no longer assigns the handle field(s) %s itself" % (cq, ", ".join("self." + f for f in missing))
+    return None
+
+
+def gen_cm_closed_params(ctx, g, facts, on):
+    """For a generator function used as a context manager (contextlib.contextmanager): the parameters p such that every path from the
+    (single) yield to the end of the generator -- `on`='exit': when the block ends normally and when it raises; `on`='error': when it
+    raises -- passes `p.close()`, given what is known about the other parameters (facts: name -> value)."""
+    if not g.is_generator or not any((d or "").split(".")[-1] == "contextmanager" for d in g.decorators):
+        return set()
+    from .cfg import default_may_raise
+    is_yield = lambda n: n.kind == "stmt" and isinstance(n.ast, ast.Expr) and isinstance(n.ast.value, ast.Yield)
+    # the block of the with statement runs at the yield: whatever it raises is raised there
+    cfg = CFG(g.node, may_raise=lambda n: is_yield(n) or default_may_raise(n))
+    ys = cfg.where(is_yield)
+    if len(ys) != 1:
+        return set()
+    y = ys[0]
+    out = set()
+    for p in g.params:
+        closes = lambda n, p=p: _node_has_call(n, lambda c: call_name(c) == p + ".close")
+        ok = True
+        for m, k in y.succ:
+            if on == "error" and k not in ("exc", "uncaught"):
+                continue
+            if closes(m):
+                continue
+            good, _w = cfg.always_passes(m, closes, assume=assume_from(facts))
+            ok = ok and good
+        if ok and any(True for m, k in y.succ if on != "error" or k in ("exc", "uncaught")):
+            out.add(p)
+    return out
+
+
+def cm_call_binding(prog, mod, e):
+    """(package function, {param: arg expr}) for `with f(args)` where f is a package function"""
+    if not (isinstance(e, ast.Call) and isinstance(e.func, (ast.Name, ast.Attribute))):
+        return None, {}
+    r = prog.resolve_expr(mod, e.func)
+    if not (r and r[0] == "func"):
+        return None, {}
+    g = r[1]
+    ps = [p for p in g.params if not (g.cls is not None and not g.is_static and p in ("self", "cls"))]
+    b = dict(zip(ps, e.args))
+    b.update({k.arg: k.value for k in e.keywords if k.arg})
+    return g, b
+
+
 def is_builtin_open(call, mod):
     return isinstance(call.func, ast.Name) and call.func.id == "open" and "open" not in mod.imports \
         and "open" not in mod.assigns
@@ -122,6 +206,9 @@ def rl1(ctx, R):
                     prog.functions[e.caller].cls in owner_classes for e in ctx.callgraph().callers(fi.qual)):
                 R.ok(key, fi.where(n), "the handle is returned to its only callers, methods of handle-owning classes (ownership decided by the "
                      "constructor scenarios below)")
+            elif fi.cls is not None and fi.cls not in owner_classes and fi.module in {k.module for k in owner_classes}:
+                R.undecided(key, fi.where(n), "open() in %s, a helper class of a module with a handle-owning class: how this handle is paired with an owner "
+                            "is not modelled" % fi.cls.qual)
             else:
                 R.violation(key, fi.where(n), "open() outside the handle-owning classes %s: nothing pairs this handle with an owner field, so no close() "
                             "site is obliged to release it" % sorted(OWNERS))
@@ -129,6 +216,10 @@ def rl1(ctx, R):
     for cq, scenarios, then in (("reader.TdmsReader", READER_SCENARIOS, ()), ("writer.TdmsWriter", WRITER_SCENARIOS, ("open",))):
         owners = OWNERS[cq]
         init = prog.func(cq + ".__init__")
+        unfit = model_unfit(prog, cq)
+        if unfit:
+            R.unrecognised("%s::ownership" % cq, init.where(), "handle / owner field model does not apply: %s" % unfit)
+            continue
         for name, answers in scenarios:
             outs = construct(prog, cq, answers, then)
             key = "%s::%s" % (cq, name)
@@ -167,6 +258,10 @@ def st2(ctx, R):
     for cq, scenarios, then in (("reader.TdmsReader", READER_SCENARIOS, ()), ("writer.TdmsWriter", WRITER_SCENARIOS, ("open",))):
         owners = OWNERS[cq]
         init = prog.func(cq + ".__init__")
+        if model_unfit(prog, cq):
+            R.unrecognised("%s::stream as supplied" % cq, init.where(), "handle / owner field model does not apply: %s" % model_unfit(prog, cq))
+            n += 2
+            continue
         for name, answers in scenarios:
             outs = construct(prog, cq, answers, then)
             wrapped = None
@@ -234,7 +329,27 @@ def rl2(ctx, R):
         if not (isinstance(e, ast.Call) and isinstance(e.func, (ast.Name, ast.Attribute))):
             return False
         K = prog.resolve_class(init.module, e.func)
-        if K is None or "__exit__" not in K.methods:
+        if K is None:
+            # a generator based context manager of the package:  with _closing_unless(reader, keep_open): ...
+            g, b = cm_call_binding(prog, init.module, e)
+            if g is None:
+                return False
+            facts = {}
+            for p_, a in b.items():
+                if isinstance(a, ast.Name) and a.id == "keep_open":
+                    facts[p_] = val
+                elif isinstance(a, ast.Constant) and isinstance(a.value, bool):
+                    facts[p_] = a.value
+            closed = gen_cm_closed_params(ctx, g, facts, "exit")
+            hit = any(dotted(a) == target and p_ in closed for p_, a in b.items())
+            if not hit:
+                return False
+            if node.kind == "with_exit":
+                return True
+            # entering: the generator runs up to its yield; fine when nothing before the yield can fail
+            first = [st for st in g.node.body if not (isinstance(st, ast.Expr) and isinstance(st.value, ast.Constant))]
+            return bool(first) and (isinstance(first[0], ast.Try) or (isinstance(first[0], ast.Expr) and isinstance(first[0].value, ast.Yield)))
+        if "__exit__" not in K.methods:
             return False
         kinit = K.methods.get("__init__")
         cf = ctor_fields(K)
@@ -356,6 +471,9 @@ def rl4(ctx, R):
     for cq, fq in (("reader.TdmsReader", "reader.TdmsReader.close"), ("writer.TdmsWriter", "writer.TdmsWriter.close")):
         fi = prog.func(fq)
         cls = prog.cls(cq)
+        if model_unfit(prog, cq):
+            R.unrecognised("%s::owned handles" % fq, fi.where(), "handle / owner field model does not apply: %s" % model_unfit(prog, cq))
+            continue
         owners, allopen = _owner_scenarios(cq)
         outs = _run_method(prog, cls, fi, allopen)
         if not outs:
@@ -601,6 +719,9 @@ def rl7(ctx, R):
         owners = OWNERS[cq]
         handles = {"self." + h for h in owners}
         ofields = {"self." + p_ for p_ in owners.values()}
+        if model_unfit(prog, cq):
+            R.unrecognised("%s::caller streams" % cq, "%s:%d" % (cls.module.relpath, cls.node.lineno), "handle / owner field model does not apply: %s" % model_unfit(prog, cq))
+            continue
         for name, answers in scenarios:
             post = construct(prog, cq, answers, then)
             caller_handles = {h for st in post for h in handles if (sget(st, "origin", h) or "").startswith("caller")}
@@ -641,11 +762,24 @@ def rl7(ctx, R):
             lname = c.func.value.id if isinstance(c.func.value, ast.Name) else None
             local_open = lname and any(isinstance(n, ast.Assign) and isinstance(n.value, ast.Call) and is_builtin_open(n.value, fi.module)
                                        and any(isinstance(t, ast.Name) and t.id == lname for t in n.targets) for n in walk_body(fi.node))
+            root = recv.split(".")[0]
+            takes_streams = fi.cls is not None and fi.cls.qual in ("tdms.TdmsFile", "reader.TdmsReader", "writer.TdmsWriter")
+            if not takes_streams and root in fi.params and root not in ("self", "cls"):
+                # a parameter that this function also hands to the library as the file to read or write is the caller's stream
+                for c2 in walk_body(fi.node):
+                    if isinstance(c2, ast.Call) and any(isinstance(a, ast.Name) and a.id == root for a in list(c2.args) + [k.value for k in c2.keywords]):
+                        k_ = prog.resolve_class(fi.module, c2.func) if isinstance(c2.func, (ast.Name, ast.Attribute)) else None
+                        if k_ is None and isinstance(c2.func, ast.Attribute):
+                            k_ = prog.resolve_class(fi.module, c2.func.value) if isinstance(c2.func.value, (ast.Name, ast.Attribute)) else None
+                        if k_ is not None and k_.qual in ("tdms.TdmsFile", "reader.TdmsReader", "writer.TdmsWriter"):
+                            takes_streams = True
             if local_open:
                 R.ok(key, fi.where(c), "closes a file opened in the same function")
-            else:
+            elif takes_streams and (root in fi.params and root not in ("self", "cls") or (root == "self" and recv.count(".") == 1)):
                 R.violation(key, fi.where(c), "close() on %r, which is neither a package reader/file/writer object nor a file opened in this function: a "
                             "stream supplied by the caller may be closed" % recv)
+            else:
+                R.undecided(key, fi.where(c), "close() on %r: whose object this is was not recognised (a helper object, or a helper's parameter)" % recv)
 
 
 def _alias_defs(fi, name, owners):
@@ -809,7 +943,16 @@ def rl8(ctx, R):
             for B in sorted(risky, key=lambda n: n.id):
                 # exceptional successors of B
                 starts = [m for m, k in B.succ if k == "exc"]
-                closes = lambda n, handle=handle: _node_has_call(n, _closes_handle(handle))
+                def closes(n, handle=handle):
+                    if _node_has_call(n, _closes_handle(handle)):
+                        return True
+                    if n.kind == "with_exit" and "exc" in (n.clone or ""):
+                        # with close_on_error(self._file): ...   -- a package context manager that closes its argument when the block raises
+                        g, b = cm_call_binding(prog, fi.module, n.ast.context_expr)
+                        if g is not None:
+                            closed = gen_cm_closed_params(ctx, g, {}, "error")
+                            return any(dotted(a) == "self." + handle and p_ in closed for p_, a in b.items())
+                    return False
                 for s in starts:
                     if closes(s):
                         continue
